@@ -3,6 +3,7 @@
  * {NULL(whitespace), ",", ", "}; reference tokenizer / word grammar written from the statement. */
 #include "hcommon.h"
 #include <ctype.h>
+#include <unistd.h>
 
 static char SYM[8] = { 'a', 'b', ' ', ',', '"', '\'', '\\', '\t' };        /* --hb=N replaces the second letter by the byte N (0xA0, 0x89: bytes that toascii() turns into blanks) */
 #define NSYM 8
@@ -140,6 +141,18 @@ static void case_fn(uint64_t idx, void *ctx)
               for (int i = 0; i < tn && !bad; i++) { spif_str_t ts = SPIF_STR(SPIF_LIST_GET(tl, i)); char r[24]; strcpy(r, ref.t[i]); trim(r); if (strcmp((ts && ts->s) ? (char *) ts->s : "", r)) bad = 1; }
               if (bad) FAIL("spif_tok_done", "model:reuse", shape, "a tokenizer that used other quote/escape characters before done() gives %d tokens that differ from the grammar's %d (delimiters %s)", tn, ref.n, d ? d : "whitespace"); }
           spif_tok_del(u); }
+        /* the same text followed by a newline, read from a descriptor: the tokenizer built by new_from_fd holds what new_from_ptr holds */
+        if (di < 2) { char t2[40]; snprintf(t2, sizeof t2, "%s\n", raw); int pf[2];
+          if (pipe(pf) == 0) { size_t tl = strlen(t2); if (write(pf[1], t2, tl) == (ssize_t) tl) { close(pf[1]);
+              spif_tok_t a = spif_tok_new_from_fd(pf[0]), b = spif_tok_new_from_ptr((spif_charptr_t) t2);
+              if (a && b) { if (d) { spif_tok_set_sep(a, spif_str_new_from_ptr((spif_charptr_t) hd)); spif_tok_set_sep(b, spif_str_new_from_ptr((spif_charptr_t) hd)); }
+                  spif_tok_eval(a); spif_tok_eval(b);
+                  spif_list_t la = spif_tok_get_tokens(a), lb = spif_tok_get_tokens(b); int na = la ? (int) SPIF_LIST_COUNT(la) : 0, nb = lb ? (int) SPIF_LIST_COUNT(lb) : 0, bad = na != nb;
+                  for (int i = 0; i < na && !bad; i++) { spif_str_t x = SPIF_STR(SPIF_LIST_GET(la, i)), y = SPIF_STR(SPIF_LIST_GET(lb, i)); if (strcmp(x && x->s ? (char *) x->s : "", y && y->s ? (char *) y->s : "")) bad = 1; }
+                  if (bad) FAIL("spif_tok_new_from_fd", "model:tokens", shape, "the text and a newline read from a descriptor gives %d tokens, the same text given as a pointer %d, or they differ (delimiters %s)", na, nb, d ? d : "whitespace"); }
+              else if (!a) FAIL("spif_tok_new_from_fd", "model:return", shape, "new_from_fd returned NULL");
+              if (a) spif_tok_del(a); if (b) spif_tok_del(b); } else close(pf[1]);
+            close(pf[0]); } }
         /* an evaluation that is refused (the source was taken away) leaves the tokenizer usable: what it reports as tokens can be walked, it can be given a source again */
         { spif_tok_t r = spif_tok_new_from_ptr((spif_charptr_t) s);
           if (d) spif_tok_set_sep(r, spif_str_new_from_ptr((spif_charptr_t) hd));
